@@ -91,7 +91,8 @@ func checkC09(c *Ctx) {
 		"K1 amplification-site audit of the decode closure: every index-driven cursor over the input only moves forward, except enumerated jump sites; at a jump site (a) jumps do not nest (typestate flag: the jump requires the flag clear, sets it, and it is cleared only where the saved position is restored) and (b) every accumulator grown in that loop is bounded by a dominating comparison of its length with a constant (RFC 1035 §3.1: 255)",
 		"K2 no decoder copies the remainder of its input (ReadAll / CopyN(Len())) inside a loop: nested option lists are parsed from one copy per level",
 		"K3 no allocation inside a decode loop is sized by the length of a loop-carried accumulator (repeated-option reassembly appends only the chunk just consumed); no accumulator is grown through a capacity-clipped alias of itself",
-		"K4 no encoder invokes ToBytes twice on the same sub-value along a path (re-encoding is linear in the nesting depth, not exponential)")
+		"K4 no encoder invokes ToBytes twice on the same sub-value along a path (re-encoding is linear in the nesting depth, not exponential)",
+		"K7 no function on a recursion cycle of the decode closure hands the same input bytes to that cycle twice along one path (decoding is linear in the nesting depth)")
 	r.NotDecided = append(r.NotDecided, "the numeric statement itself (bytes allocated ≤ k·n + n·depth, size of the decoded value): runtime quantities of the allocator, append growth and string concatenation that no static argument in reach bounds; the clauses above are necessary conditions, not a proof of the bound")
 	e, err := newE4(c, "C09-K1")
 	if err != nil {
@@ -249,6 +250,7 @@ func checkC09(c *Ctx) {
 			}
 		})
 	}
+	c09DoubleDecode(c, funcs)
 	r.Count("C09-K5-make-sites", nMake)
 	r.Count("C09-K6-format-sites", nFmt)
 	r.Expect("C09-K6-format-sites", 10)
@@ -853,4 +855,117 @@ func derivesFromInput(f *ssa.Function, v ssa.Value, d int) bool {
 		}
 	}
 	return false
+}
+
+// c09DoubleDecode: K7 — decoding is linear in the nesting depth: inside a recursion cycle of the decode closure no
+// function hands the same input bytes to the cycle twice along one path (each level would decode its payload twice,
+// 2^depth decodings for depth nested relay messages / encapsulated options).
+func c09DoubleDecode(c *Ctx, funcs []*ssa.Function) {
+	r := c.R
+	in := map[*ssa.Function]bool{}
+	for _, f := range funcs {
+		in[f] = true
+	}
+	succ := map[*ssa.Function][]*ssa.Function{}
+	for _, f := range funcs {
+		seen := map[*ssa.Function]bool{}
+		allInstrs(f, func(x ssa.Instruction) {
+			if ci, ok := x.(ssa.CallInstruction); ok {
+				for _, g := range c.P.Callees(ci) {
+					if in[g] && !seen[g] {
+						seen[g] = true
+						succ[f] = append(succ[f], g)
+					}
+				}
+			}
+		})
+	}
+	reach := map[*ssa.Function]map[*ssa.Function]bool{}
+	reachOf := func(f *ssa.Function) map[*ssa.Function]bool {
+		if m, ok := reach[f]; ok {
+			return m
+		}
+		m := map[*ssa.Function]bool{}
+		st := []*ssa.Function{f}
+		for len(st) > 0 {
+			g := st[len(st)-1]
+			st = st[:len(st)-1]
+			for _, h := range succ[g] {
+				if !m[h] {
+					m[h] = true
+					st = append(st, h)
+				}
+			}
+		}
+		reach[f] = m
+		return m
+	}
+	nRec, nPairs := 0, 0
+	for _, f := range funcs {
+		if inUio(f) || !reachOf(f)[f] {
+			continue
+		}
+		var sites []ssa.CallInstruction
+		allInstrs(f, func(x ssa.Instruction) {
+			ci, ok := x.(ssa.CallInstruction)
+			if !ok {
+				return
+			}
+			for _, g := range c.P.Callees(ci) {
+				if in[g] && (g == f || reachOf(g)[f]) {
+					sites = append(sites, ci)
+					return
+				}
+			}
+		})
+		nRec += len(sites)
+		for _, c1 := range sites {
+			for _, c2 := range sites {
+				if c1 == c2 {
+					continue
+				}
+				// c2 after c1 on some path
+				after := false
+				if c1.Block() == c2.Block() {
+					for _, x := range c1.Block().Instrs {
+						if x == ssa.Instruction(c1) {
+							after = true
+							break
+						}
+						if x == ssa.Instruction(c2) {
+							break
+						}
+					}
+				}
+				if !after && c1.Block() != c2.Block() && reachFromSuccs(c1.Block(), nil, nil)[c2.Block()] {
+					after = true
+				}
+				if !after {
+					continue
+				}
+				var shared ssa.Value
+				for _, a1 := range c1.Common().Args {
+					if st, ok := a1.Type().Underlying().(*types.Slice); !ok || !isByteElem(st) {
+						continue
+					}
+					for _, a2 := range c2.Common().Args {
+						if a1 == a2 {
+							shared = a1
+						}
+					}
+				}
+				if shared == nil {
+					continue
+				}
+				nPairs++
+				r.Violation("C09-K7", shortName(f)+": hands "+shortDesc(shared, 3)+" to the decoder recursion twice ("+calleeName(c1.Common())+" then "+calleeName(c2.Common())+")", c.P.ipos(c2),
+					"both calls can re-enter "+shortName(f)+" with the same bytes: every nesting level decodes its payload twice, 2^depth decodings for a datagram of nested relay messages")
+			}
+		}
+	}
+	r.Count("C09-K7-recursive-call-sites", nRec)
+	r.Expect("C09-K7-recursive-call-sites", 5)
+	if nPairs == 0 {
+		r.OK("C09-K7", "no input handed to the decoder recursion twice on one path", "-", "pairs of recursive call sites sharing a byte-slice argument", fmt.Sprintf("%d recursive call sites", nRec))
+	}
 }
